@@ -84,6 +84,8 @@ type replayT struct {
 	Note     string `json:"note,omitempty"`
 	// ipnisync.NewSync option set of the client ("" = default)
 	ClientOpt string `json:"client_options,omitempty"`
+	// shape of the address list given to NewSyncer / SyncAdChain ("" = just the address)
+	AddrShape string `json:"address_list,omitempty"`
 	// pubsched: the publisher's roots and the schedule of SetRoot / head requests
 	Roots    []string `json:"roots,omitempty"`
 	Schedule []pstep  `json:"schedule,omitempty"`
@@ -126,6 +128,7 @@ func main() {
 	defer srv.ts.Close()
 	sharedSync = ipnisync.NewSync(mkLinkSystem(dssync.MutexWrap(datastore.NewMapDatastore())), nil)
 	defer sharedSync.Close()
+	deadAddr = deadHTTPAddr()
 	defer func() {
 		for _, s := range syncs {
 			s.Close()
@@ -150,6 +153,8 @@ func main() {
 		"Each response goes through Decode+Validate, through Syncer.GetHead with expected = the honest signer / another identity / none, and (a subset) through Subscriber.SyncAdChain with latest-sync unset / an older block / the head itself and the peer ID given directly, only inside the address, or not at all. " +
 		"Publisher: every key x topic x root set / unset. " +
 		"Sizes: key types Ed25519 / RSA-2048 / RSA-3072 / RSA-4096 x topics of 0, 1, 100, 700, 1024, 4096, 65536 bytes (and JSON-special, NUL, non-ASCII topics): what NewSignedHead+Encode produce and what a real Publisher serves must Decode, Validate and be accepted by GetHead for the publisher and rejected for another identity (encoded heads from 280 B to 66 KB). " +
+		"Address lists: the honest / re-signed / planted-signature heads through Sync.NewSyncer + GetHead and through Subscriber.SyncAdChain with the address list given as [nil, a], [a, nil], [a, nil, a], [nil, nil, a], [a, a], [dead, a], [nil]: expected publisher != signer is rejected whatever the list looks like, the honest head accepted whenever an address is usable. " +
+		"Kept bytes: Encode, then Encode other heads (other key / root / length): the first bytes are unchanged and still decode and verify; Publisher responses written in two halves with SetRoot and another head request in between. " +
 		"Client options: the full scenario table (expected = signer / two other identities / none), unusable responses and two histories through Syncer.GetHead for every non-default ipnisync.NewSync option set (ClientAuthServerPeerID, retrying HTTP client, timeout, combinations). " +
 		"Publisher under concurrency: deterministic schedules with a private key whose Sign waits on a latch: head requests in flight (1..3, released in every order) while SetRoot is called once or twice (incl. to no root); every head request started after a SetRoot returned must serve a verifying head for exactly that root. " +
 		"Histories on ONE Syncer and on ONE Subscriber (16 per key type): a genuine head, then its key+signature on another CID / topic / another identity's head, with rejected responses and further genuine heads in between; every step judged as if it were the first. " +
@@ -164,6 +169,8 @@ func main() {
 	genOptions(c)
 	genPublisherSchedules(c)
 	genSizes(c)
+	genAddrShapes(c)
+	genKeptBytes(c)
 }
 
 func peerStr(id peer.ID) string {
@@ -189,7 +196,7 @@ func runReplay(c *vlib.Ctx, r replayT) {
 		status = 200
 	}
 	sc := scenario{name: "replay", status: status, body: body, expect: r.Expect, sig: r.Sig}
-	curOpt = r.ClientOpt
+	curOpt, curAddrShape = r.ClientOpt, r.AddrShape
 	switch r.Kind {
 	case "validate":
 		doValidate(c, sc)
@@ -254,6 +261,8 @@ func runReplay(c *vlib.Ctx, r replayT) {
 		}
 		fmt.Printf("  publisher %s topic=%q schedule %s\n", id.ID, r.Topic, schedName(r.Schedule))
 		doPubSched(c, id, r.Topic, roots, r.Schedule)
+	case "keptbytes":
+		genKeptBytes(c)
 	case "size":
 		kb, _ := hex.DecodeString(r.KeyPriv)
 		k, err := ic.UnmarshalPrivateKey(kb)
